@@ -150,6 +150,83 @@ def _doc_case(ctx, idx):
             'mode': mode, 'flags': flags, 'prev': prev, 'as_seq': as_seq, 'depth': depth, 'root_kind': root_kind}
 
 
+def _placement_cases(ctx):
+    """Systematic placements: ONE special item (a reference without evidence, a COMPOSITE reference with evidence, a
+    SCOORD3D item) at depth 1..4 below a chain of containers, directly or below a SCOORD / NUM item, for every class:
+    'at any depth' enumerated instead of sampled."""
+    import highdicom as hd
+    import numpy as np
+    from pydicom.sr.codedict import codes
+    from gen import srdocs
+    sr = hd.sr
+    out = []
+    idx = 0
+    for depth in (1, 2, 3, 4):
+        for parent in ('container', 'scoord', 'num'):
+            for special in ('foreign-image', 'composite', 'scoord3d'):
+                for cls in SR_CLASSES:
+                    r = ctx.rng('placement', idx)
+                    pool = srdocs.instance_pool(r, max_studies=2)
+                    ids = srdocs._Ids()
+
+                    def cspec(vt, rel, ref=None):
+                        return {'id': ids.next(), 'vt': vt, 'name': ('121071', 'DCM'), 'rel': rel, 'ref': ref, 'has_seq': False,
+                                'children': []}
+                    name = sr.CodedConcept(value='121071', scheme_designator='DCM', meaning='Finding')
+                    root = sr.ContainerContentItem(name=name)
+                    rspec = cspec('CONTAINER', None)
+                    rspec['attrs'] = ['ValueType', 'ConceptNameCodeSequence', 'ContinuityOfContent']
+                    cur, curspec = root, rspec
+                    for _ in range(depth - 1):
+                        nxt = sr.ContainerContentItem(name=name, relationship_type='CONTAINS')
+                        ns = cspec('CONTAINER', 'CONTAINS')
+                        cur.ContentSequence = sr.ContentSequence([nxt])
+                        curspec['has_seq'] = True
+                        curspec['children'] = [ns]
+                        cur, curspec = nxt, ns
+                    if parent == 'scoord':
+                        p_ = sr.ScoordContentItem(name=name, graphic_type='POINT', graphic_data=np.array([[1.0, 1.0]]),
+                                                  relationship_type='CONTAINS')
+                        ps = cspec('SCOORD', 'CONTAINS')
+                    elif parent == 'num':
+                        p_ = sr.NumContentItem(name=name, value=1.5, unit=codes.UCUM.Millimeter, relationship_type='CONTAINS')
+                        ps = cspec('NUM', 'CONTAINS')
+                    else:
+                        p_ = None
+                    if p_ is not None:
+                        cur.ContentSequence = sr.ContentSequence([p_])
+                        curspec['has_seq'] = True
+                        curspec['children'] = [ps]
+                        cur, curspec = p_, ps
+                    rel = 'CONTAINS' if parent == 'container' else 'INFERRED FROM' if parent == 'num' else 'SELECTED FROM'
+                    if special == 'foreign-image':
+                        ref = (srdocs.CLASSES['CT'], srdocs.uid(r, 'foreign'))
+                        it = sr.ImageContentItem(name=name, referenced_sop_class_uid=ref[0], referenced_sop_instance_uid=ref[1],
+                                                 relationship_type=rel)
+                        ss = cspec('IMAGE', rel, ref)
+                    elif special == 'composite':
+                        p0 = pool[0]
+                        ref = (p0['cls'], p0['inst'])
+                        it = sr.CompositeContentItem(name=name, referenced_sop_class_uid=ref[0], referenced_sop_instance_uid=ref[1],
+                                                     relationship_type=rel)
+                        ss = cspec('COMPOSITE', rel, ref)
+                    else:
+                        it = sr.Scoord3DContentItem(name=name, graphic_type='POINT', graphic_data=np.array([[1.0, 2.0, 3.0]]),
+                                                    frame_of_reference_uid=srdocs.uid(r, 'for'), relationship_type=rel)
+                        ss = cspec('SCOORD3D', rel)
+                    cur.ContentSequence = sr.ContentSequence([it])
+                    curspec['has_seq'] = True
+                    curspec['children'] = [ss]
+                    out.append({'idx': 100000 + idx, 'pool': pool, 'cls': cls, 'root': root, 'spec': rspec,
+                                'refs': srdocs.referenced(rspec), 'evidence': [p['ds'] for p in pool], 'mode': 'all',
+                                'flags': {'record_evidence': True, 'is_complete': False, 'is_final': False, 'is_verified': False,
+                                          'observer': None, 'organization': None},
+                                'prev': None, 'as_seq': 0, 'depth': depth, 'root_kind': 'container',
+                                'placement': (depth, parent, special)})
+                    idx += 1
+    return out
+
+
 def _expected(c):
     """Oracle over construction parameters: reasons the constructor must refuse, and the expected partition."""
     from gen import srdocs
@@ -867,6 +944,11 @@ def run(ctx):
                                            'corpus', 'C15', '*.json'))):
         case = json.load(open(f))
         _run_one(ctx, case, reqs, pending)
+    for c in _placement_cases(ctx):
+        _check_doc(ctx, c, reqs, pending)
+        ctx.hist('placement', '/'.join(map(str, c['placement'])) + ('' if c['cls'] == 'Comprehensive3DSR' else '*'))
+    ctx.exhaustive.append('placements: {reference without evidence, COMPOSITE with evidence, SCOORD3D} x depth 1..4 x parent '
+                          '{container, SCOORD, NUM} x 3 document classes')
     for idx in range(ctx.n(700, 6000)):
         _check_doc(ctx, _doc_case(ctx, idx), reqs, pending)
     for idx in range(ctx.n(300, 2500)):
@@ -935,7 +1017,11 @@ def _real_segmentations(ctx):
 
 def _run_one(ctx, case, reqs, pending):
     s = case.get('stream')
-    if s == 'doc':
+    if s == 'doc' and case['idx'] >= 100000:
+        for c in _placement_cases(ctx):
+            if c['idx'] == case['idx']:
+                _check_doc(ctx, c, reqs, pending)
+    elif s == 'doc':
         _check_doc(ctx, _doc_case(ctx, case['idx']), reqs, pending)
     elif s == 'ko':
         _check_ko(ctx, _ko_case(ctx, case['idx']), reqs, pending)
